@@ -524,6 +524,40 @@ def gen_sticky(rng, tier, n=None):
     return cases
 
 
+def realistic_acks(cases, stop_at_unanswered=False):
+    """Rewrite the acknowledgement numbers of a case the way a conforming client would send them: cookie + 1 + the number of
+    application bytes the responder has sent on that connection so far (a first run of the implementation tells how many;
+    masscanned itself never looks at the acknowledgement number of an established connection, so the second run must give
+    the same answers)."""
+    run_cases(cases, want_model=False)
+    out = []
+    for c in cases:
+        key = c['ops'][0][1]['key']
+        sent, ops = {}, []
+        for o, b in zip(c['ops'], c['impl'] + [None] * (len(c['ops']) - len(c['impl']))):
+            if o[0] != 'F' or flow_key(o[1]) is None or b is None:
+                ops.append(o)
+                continue
+            f, fk = o[1], flow_key(o[1])
+            ck = cookie(key, fk[1], fk[2], struct.unpack('>H', fk[3])[0], struct.unpack('>H', fk[4])[0])
+            l4 = 14 + ((f[14] & 15) * 4 if fk[0] == 4 else 40)
+            ack = struct.unpack('>I', f[l4 + 8:l4 + 12])[0]
+            if (f[l4 + 13] & 0x10) and ack == (ck + 1) & 0xffffffff and sent.get(fk):
+                g = bytearray(f)
+                g[l4 + 8:l4 + 12] = struct.pack('>I', (ck + 1 + sent[fk]) & 0xffffffff)
+                f = refix(bytes(g))
+            ops.append(('F', f))
+            got = 0
+            if outcome(b['r'] or '-') == 'reply':
+                d = split_reply(bytes.fromhex(b['r'].split()[0]))
+                got = len(d.get('app') or b'')
+                sent[fk] = sent.get(fk, 0) + got + (1 if 'tcp' in d and d['tcp'][4] & 0x01 else 0)   # a FIN takes one sequence number (the SYN's is in cookie + 1)
+            if stop_at_unanswered and got == 0 and (f[l4 + 13] & 0x18) == 0x18 and len(f) > l4 + 20:
+                break       # a request that is not answered leaves the parser where it is: what follows is not a fresh request
+        out.append({'ops': ops, 'tags': c['tags'] + ['realistic-acks']})
+    return out
+
+
 def gen_reuse(rng, tier, n=None):
     """a single 4-tuple (or two) living through several connections: complete requests of different
     protocols, SYNs, FINs, RSTs in sequence — exercises stale per-flow state"""
@@ -714,6 +748,9 @@ def gen_c20(rng, tier):
         fc['ops'][0][1]['logger'] = rng.choice(['console', 'logfmt'])
         fc['tags'].append('logger:' + fc['ops'][0][1]['logger'])
         cases.append(fc)
+    for lg in ('console', 'logfmt'):
+        w = World(rng, selfmode=False, denymode=False, logger=lg)
+        cases.append(case(w, stun_sweep_frames(rng, w, dports=(3478, 65535, 65534, 0), flagset=(0, 2, 4, 6)), ['stun-rewrite-sweep', 'logger:' + lg]))
     return cases + sweep_cases(rng, 'console') + sweep_cases(rng, 'logfmt')
 
 
@@ -784,7 +821,8 @@ def l24_request_sweep(rng, w):
             frames.append(eth(dm, w.cl_mac, 0x86dd, ipv6(s6, w.my6, 58, icmp6(128, 0, b'abcdefgh', s6, w.my6))))
             sn = bytes.fromhex('ff0200000000000000000001ff') + w.my6[13:16]
             # with and without options (source link-layer address, an unknown option, two options), whatever the source
-            for opt in (b'', b'\x01\x01' + w.cl_mac, b'\x0e\x01' + bytes(6), b'\x0e\x01' + bytes(6) + b'\x01\x01' + w.cl_mac):
+            for opt in (b'', b'\x01\x01' + w.cl_mac, b'\x0e\x01' + bytes(6), b'\x0e\x01' + bytes(6) + b'\x01\x01' + w.cl_mac,
+                        b'\x01\x01\x02\xde\xad\xbe\xef\x02', b'\x02\x01\x02\xde\xad\xbe\xef\x02'):
                 for d6 in (w.my6, sn):
                     ns = icmp6(135, 0, bytes(4) + w.my6 + opt, s6, d6)
                     frames.append(eth(dm, w.cl_mac, 0x86dd, ipv6(s6, d6, 58, ns, hlim=255)))
@@ -1151,6 +1189,32 @@ def gen_c15(rng, tier):
     return cases
 
 
+def gen_dialogues(kinds, n_quick=30):
+    """a client that behaves: SYN, the ACK of the handshake, then several complete requests of one protocol, one per segment,
+    each acknowledging what the responder has sent so far (see realistic_acks); advertised windows and ports vary"""
+    def g(rng, tier):
+        cases = []
+        for i in range(n_quick if tier == 'quick' else 20 * n_quick):
+            w = World(rng, selfmode=False, denymode=False)
+            kind = kinds[i % len(kinds)]
+            v6 = rng.chance(1, 2)
+            sport, dport, seq = 1024 + rng.below(60000), rng.choice(gen.PORTS + [rng.u16()] * 4), rng.u32()
+            s_, d_ = w.addrs(v6)
+            ck = w.cookie(s_, d_, sport, dport)
+            frames = [w.tcp_frame(v6, sport, dport, (seq - 1) & 0xffffffff, 0, 0x02), w.tcp_frame(v6, sport, dport, seq, (ck + 1) & 0xffffffff, 0x10)]
+            for _ in range(2 + rng.below(3)):
+                pl = gen.gen_stun_long(rng) if kind == 'stun' else gen.gen_app(rng, tcp=True, kinds=[kind])[2]
+                if kind == 'http':
+                    pl = gen.gen_http(rng)
+                    while pl[-1:] != b'\n':      # no trailing bytes behind the request: they would start the next one
+                        pl = gen.gen_http(rng)
+                frames.append(w.data_frame(v6, sport, dport, seq, pl, win=rng.choice(gen.WINDOWS[:5])))
+                seq = (seq + len(pl)) & 0xffffffff
+            cases.append(case(w, frames, ['dialogue', 'kind:' + kind]))
+        return realistic_acks(cases, stop_at_unanswered=True)
+    return g
+
+
 # ----------------------------------------------------------------------------- property table
 
 PROPS = {
@@ -1164,7 +1228,7 @@ PROPS = {
                      'signatures / mutated, one real search_next(+end) call each; application level: payload grammars of every protocol over UDP and '
                      'TCP, IPv4 and IPv6, random ports; non-trivial = payload whose reference identification is some signature (or, for replies, a '
                      'signature-dispatched responder answered)'),
-    'C13': dict(gen=gen_appcases(['http', 'http', 'http', 'raw']), judge='C13', judge_mode='app', proj=proj_headers,
+    'C13': dict(gen=lambda rng, tier: gen_appcases(['http', 'http', 'http', 'raw'])(rng, tier) + gen_dialogues(['http'])(rng, tier), judge='C13', judge_mode='app', proj=proj_headers,
                 rule='HTTP request grammar (9 verbs, targets incl. non-UTF-8/CR/NUL, versions, 0..n headers, CRLF/LF) + single faults (unknown verb, '
                      'missing SP, bad version, header without colon, unterminated, lower case, two spaces) + raw mutations, over UDP and TCP, any port; '
                      'non-trivial = request of the strict grammar, or one outside the relaxed language that starts like HTTP'),
@@ -1174,13 +1238,13 @@ PROPS = {
     'C15': dict(gen=gen_c15, judge='C15', judge_mode='app', proj=proj_headers,
                 rule='STUN messages with/without magic cookie, attribute lists well-formed (padded) and with lying TLV lengths, change-request flags, '
                      'all class/method codes; non-trivial = binding request identified by the published signatures, or a message of another class/method'),
-    'C16': dict(gen=gen_appcases(['rpc', 'rpc', 'rpc', 'raw']), judge='C16', judge_mode='app', proj=proj_headers,
+    'C16': dict(gen=lambda rng, tier: gen_appcases(['rpc', 'rpc', 'rpc', 'raw'])(rng, tier) + gen_dialogues(['rpc'], 16)(rng, tier), judge='C16', judge_mode='app', proj=proj_headers,
                 rule='ONC-RPC calls (xid, program 99840..100095, versions, procedures 0..255, credential/verifier lengths) over UDP and record-marked TCP, '
                      'IPv4 and IPv6; non-trivial = call identified by the published signatures'),
-    'C17': dict(gen=gen_appcases(['smb1', 'smb2', 'raw']), judge='C17', judge_mode='app', proj=proj_headers,
+    'C17': dict(gen=lambda rng, tier: gen_appcases(['smb1', 'smb2', 'raw'])(rng, tier) + gen_dialogues(['smb1', 'smb2'], 16)(rng, tier), judge='C17', judge_mode='app', proj=proj_headers,
                 rule='SMB1/SMB2 negotiate and session-setup requests (ids, flags, dialect lists with order/duplicates/unknown, blob lengths, commands, '
                      'reply flag, truncation); non-trivial = well-formed request (response checked) or response-flag/other-command message (silence checked)'),
-    'C18': dict(gen=gen_appcases(['ssh', 'ssh', 'ghost', 'raw']), judge='C18', judge_mode='app', proj=proj_headers,
+    'C18': dict(gen=lambda rng, tier: gen_appcases(['ssh', 'ssh', 'ghost', 'raw'])(rng, tier) + gen_dialogues(['ssh', 'ghost'], 16)(rng, tier), judge='C18', judge_mode='app', proj=proj_headers,
                 rule='SSH identification strings (versions, software/comment with arbitrary bytes incl. lone CR, terminators) and Gh0st magic + tails; '
                      'non-trivial = payload starting with SSH- or the Gh0st magic'),
     'C20': dict(gen=gen_c20, judge='C20', judge_mode='log', proj=lambda r: None,
@@ -1198,7 +1262,7 @@ PROPS = {
                      'Neighbour Solicitations (handled/unhandled target, options, truncated); non-trivial = frame for which C05 prescribes an answer or silence'),
     'C06': dict(gen=gen_c06, judge='C06', proj=proj_headers, release=True,
                 rule='all 512 flag words x boundary sequence numbers x IPv4/IPv6 x with/without payload after a non-empty history; non-trivial = delivered segment with SYN set'),
-    'C07': dict(gen=lambda rng, tier: gen_flows(rng, tier) + gen_sticky(rng, tier) + sweep_cases(rng), judge='C07', proj=proj_headers, release=True,
+    'C07': dict(gen=lambda rng, tier: gen_flows(rng, tier) + gen_sticky(rng, tier) + sweep_cases(rng) + realistic_acks(gen_sticky(rng, tier, n=(40 if tier == 'quick' else 800))), judge='C07', proj=proj_headers, release=True,
                 rule='scripted interleavings of 1-4 flows (right/wrong/zero ack, wrap-around, FIN, RST, ACK, noise); non-trivial = segment delivered to TCP and compared with the reference connection model'),
     'C09': dict(gen=gen_c09, judge='C09', proj=lambda r: None, table=True,
                 rule='hostile histories (SYN floods, wrong-ack data, FIN/RST/ACK, UDP/ICMP/ARP noise) with a table-size probe after every frame; non-trivial = frame delivered to TCP'),
@@ -1724,6 +1788,16 @@ def gen_streams(rng, tier):
     streams.append(('rpc', bytes.fromhex('80000028') + bytes.fromhex('112233440000000000000002000186a0000000020000000300000000000000000000000000000000')))
     streams.append(('http', b'GET /a HTTP/1.1\r\nAccept: text/html,\r\n application/xml\r\nHost: a\r\n\r\n'))
     streams.append(('http', b'GET / HTTP/1.1\r\nA: b\r\n\r\n'))
+    # a request that fails to parse followed by a complete one (a parser that re-synchronises on a segment boundary answers
+    # some segmentations of a stream that is never answered in one piece), and two complete requests back to back
+    streams.append(('http', b'GET / X\r\n\r\nGET / HTTP/1.0\r\n\r\n'))
+    streams.append(('http', b'GET / HTTP/1.1\r\nbad\r\n\r\nPUT /a HTTP/1.1\r\n\r\n'))
+    streams.append(('http', b'GET /  HTTP/1.1\r\n\r\nGET / HTTP/1.1\r\n\r\n'))
+    streams.append(('http', b'HEAD / HTTP/1.1\r\n\r\nGET /b HTTP/1.1\r\n\r\n'))
+    bad = bytes.fromhex('80000018') + bytes.fromhex('112233440000000000000003000186a00000000200000003')
+    good = bytes.fromhex('80000028') + bytes.fromhex('556677880000000000000002000186a0000000020000000300000000000000000000000000000000')
+    streams.append(('rpc', bad + good))
+    streams.append(('rpc', good + good[:4] + b'\x99' + good[5:]))
     return [(k, s[:110]) for k, s in streams if len(s) >= 2]
 
 
